@@ -65,7 +65,9 @@ def main():
     run = vlib.Run("C02", "exploration")
     thorough = run.tier == "thorough"
     bnames = ["cgo", "nocgo"] + (["noliblz4", "nolibzstd"] if thorough else [])
+    ph = c07.Phases(run)
     vhs = {b: c07.build(b) for b in bnames}
+    ph.mark("build")
     with vlib.Scratch("verif-c02-") as sc:
         # ---- M
         r = vlib.tlc("codec", "InterchangeMC", "InterchangeMC.cfg", coverage=True, scratch=sc, timeout=900)
@@ -79,23 +81,24 @@ def main():
                      % (n.violation or n.error))
         run.cov["negative_control_model"] = "AppendBuilds={nocgo,nolibzstd} violates Interchangeable"
 
+        ph.mark("M")
         # ---- F: behaviours
         g = vlib.tlc("codec", "InterchangeGen", "InterchangeGen4.cfg" if thorough else "InterchangeGen2.cfg", scratch=sc, timeout=900)
         vlib.expect_tlc_ok(g, "InterchangeGen")
         vlib.require(len(g.traces) >= (1296 if thorough else 324), "generator produced too few behaviours: %d" % len(g.traces))
         run.add_tlc(g, "InterchangeGen depth 2")
         behs = [json.loads(x) for x in c07.canon(g.traces)]
-        nsim, dsim = (160, 4) if thorough else (48, 3)
+        nsim, dsim = (160, 4) if thorough else (32, 3)
         g2 = vlib.tlc("codec", "InterchangeGen", "InterchangeGen4.cfg" if thorough else "InterchangeGen2.cfg", scratch=sc, timeout=900,
                       workers=4, simulate=nsim // 4, depth=dsim + 4, seed=run.seed, consts="CONSTANT Depth = %d" % dsim)
         vlib.expect_tlc_ok(g2, "InterchangeGenSim")
         vlib.require(len(g2.traces) >= nsim // 2, "simulation produced too few behaviours")
         behs += [json.loads(x) for x in c07.canon(g2.traces)]
-        # every behaviour with real goDB write-outs of flows; arbitrary column bytes ("raw") for all (thorough) / every second (quick)
+        # every behaviour with real goDB write-outs of flows; arbitrary column bytes ("raw") for all (thorough) / every third (quick)
         items = []
         for i, b in enumerate(behs):
             items.append((i, "flows", b))
-            if thorough or (i + run.seed) % 2 == 0:
+            if thorough or (i + run.seed) % 3 == 0:
                 items.append((i, "raw", b))
         run.cov["behaviours"] = len(behs)
         run.cov["behaviour_runs"] = len(items)
@@ -103,6 +106,7 @@ def main():
             run.distinct(json.dumps([[s["act"]["b"], s["act"]["e"], s["act"]["c"]] for s in b]))
         run.sample({"kind": "forward replay behaviour", "steps": [s["act"] for s in behs[len(behs) // 2]]})
 
+        ph.mark("F generate")
         fails = {}        # descriptor -> [count, descriptor, replay]
         digests = {}      # (mode, classes) -> {digest: example}
         stats = {"writes": 0, "observations": 0, "block_observations": 0, "blocks_by_stored_encoder": {}}
@@ -135,6 +139,7 @@ def main():
                                                             "beh": st["idx"]})
                 wtasks = [(b, ch) for b, jobs in by_build.items() for ch in chunks(jobs, JOBS_PER_PROC)]
                 wres = c07.parallel(lambda b, ch: (b, ch, run_jobs(vhs[b], "codec-ix-write", ch)), wtasks)
+                ph.mark("F round %d write-outs (%d processes)" % (k + 1, len(wtasks)))
                 dead = set()
                 for b, ch, (outs, err) in wres:
                     stats["writes"] += len(ch)
@@ -162,6 +167,7 @@ def main():
                                   "mode": st["mode"], "beh": st["idx"]})
                 otasks = [(rb, ch) for rb in bnames for ch in chunks(ojobs, JOBS_PER_PROC)]
                 ores = c07.parallel(lambda rb, ch: (rb, ch, run_jobs(vhs[rb], "codec-ix-observe", ch)), otasks)
+                ph.mark("F round %d read-backs (%d processes)" % (k + 1, len(otasks)))
                 seen = {}     # (beh, mode) -> {reader: result}
                 for rb, ch, (outs, err) in ores:
                     if outs is None:
